@@ -237,8 +237,20 @@ func c09Rebuild(p *chk.Prog, r *chk.Report) {
 		name := isParam(b, "name")
 		reset := b.IsAssignPat("RECV.svcAds[N]", "nil", chk.H("N", name))
 		app := b.IsAssignPat("RECV.svcAds[N]", "append(RECV.svcAds[N], A)", chk.H("N", name))
-		w := g.MustPass(chk.Site{}, app, false, reset)
-		x.Check("bgp.SetBalancer:reset-before-rebuild", posOf(w, b), !w.Found && len(g.Find(app)) >= 1, "", "advertisements of a previous evaluation accumulate (svcAds[name] is appended to without being reset first)")
+		var ipLoop *ast.RangeStmt
+		for _, l := range b.RangeLoops(isParam(b, "lbIPs")) {
+			ipLoop = l
+		}
+		if apps, local := bgpAdAppends(b, g, name, ipLoop); local && len(apps) >= 1 {
+			// the list is built in a local that starts empty and replaces c.svcAds[name] in one assignment; that
+			// assignment must be passed before the lists are published
+			store := b.IsAssignPat("RECV.svcAds[N]", "L", chk.H("N", name))
+			w := g.MustPass(chk.Site{}, b.ContainsPat("RECV.updateAds()"), false, store)
+			x.Check("bgp.SetBalancer:reset-before-rebuild", posOf(w, b), !w.Found, "", "the rebuilt list is not stored into c.svcAds[name] before the advertisements are published")
+		} else {
+			w := g.MustPass(chk.Site{}, app, false, reset)
+			x.Check("bgp.SetBalancer:reset-before-rebuild", posOf(w, b), !w.Found && len(g.Find(app)) >= 1, "", "advertisements of a previous evaluation accumulate (svcAds[name] is appended to without being reset first)")
+		}
 		w2 := g.MustPass(chk.Site{}, func(n ast.Node) bool {
 			rs, ok := n.(*ast.ReturnStmt)
 			return ok && len(rs.Results) == 1 && b.IsNilLit(rs.Results[0])
